@@ -312,8 +312,9 @@ class WilcoxonStub:
 def wilcoxon_body():
     from optuna.pruners import _wilcoxon as pw, WilcoxonPruner
     from stubs.npshim import npshim
-    pw.np = npshim
-    pw.ss = WilcoxonStub()
+    if not sx.cur().concrete:
+        pw.np = npshim
+        pw.ss = WilcoxonStub()                  # concrete replays run the real NumPy and the real SciPy test
     n_startup = sx.choose([0, 2, 3], "n_startup_steps")
     pth = sx.sym_real("p_threshold", 0, 1)
     a, b = mk_studies()
@@ -336,6 +337,35 @@ def wilcoxon_body():
     if ra is not False:
         sx.reach("prune-possible")
     return sx.iff(ra, rb)
+
+
+def make_wilcoxon_replay(body, setup_):
+    def replay(payload):
+        return _wilcoxon_replay(payload, body, setup_)
+    return replay
+
+
+def wilcoxon_replay(payload):
+    return _wilcoxon_replay(payload, wilcoxon_body, setup)
+
+
+def _wilcoxon_replay(payload, body, setup_):
+    """replay on the real code with the real SciPy test: the intermediate values are the solver's; the p-value is whatever SciPy
+    computes for them, so the free parameter p_threshold is re-chosen (model value first, then a grid) until the two orientations
+    really disagree"""
+    import copy
+    from symex import core
+    setup_(True)
+    last = "no p_threshold reproduces the disagreement with SciPy's p-value"
+    for pth in [None, 1.0, 0.9, 0.76, 0.7, 0.51, 0.3, 0.26, 0.2, 0.13, 0.1, 0.05]:
+        pl = copy.deepcopy(payload)
+        if pth is not None:
+            pl["values"]["p_threshold"] = pth
+        ok, desc = core.ConcreteRun(pl).run(body)
+        if ok:
+            return True, f"{desc} (p_threshold={pl['values'].get('p_threshold')}, SciPy p-value)"
+        last = desc
+    return False, last
 
 
 def tie_rounding_witness():
@@ -402,7 +432,8 @@ def obligations(tier):
     ]
     obs.append(Obligation("wilcoxon", wilcoxon_body, setup, CODE, bounds=dict(best_steps=[2, 3], cur_steps="subsets of {0,1,2}", p_value="uninterpreted symmetric function"),
                           shard_depth=3, budget_s=600, classify=classify, require_reach=["compared", "prune-possible"],
-                          describe="WilcoxonPruner decisions equal on mirrored studies (SciPy's test replaced by an uninterpreted symmetric p-value)"))
+                          describe="WilcoxonPruner decisions equal on mirrored studies (SciPy's test replaced by an uninterpreted symmetric p-value)",
+                          replay_custom=wilcoxon_replay))
     obs.append(Obligation("nsga2-elite-2d", make_nsga2_elite_body(3, 2), setup, CODE, bounds=dict(individuals=3, objectives=2, population_size=2),
                           shard_depth=4, budget_s=900, timeout_ms=120000, classify=classify, require_reach=["compared"],
                           describe="NSGA-II elite population (rank + crowding distance), ordered, equal under any flipped subset"))
